@@ -231,6 +231,12 @@ def check_C06(chk):
     chk.assumptions += ["edge-triggered epoll semantics (ready list, re-arming on arrival and hang-up, EPOLL_CTL_DEL) are kernel behaviour: modelled in RSet.v, validated by "
                         "the runs with more than 10 ready members and adds while readable",
                         "real thread scheduling is not exhibited by the model: the theorems cover every interleaving, the concurrent runs sample some"]
+    # the typed IpcReceiverSet inside whole-API programs (members with embedded endpoints / regions / undecodable messages, sets dropped
+    # with pending traffic), against the Api model: default and in-process builds
+    from . import props_prog as PP
+    af, ab = PP.api_stage(chk, "C06", bins, ["default", "inprocess"], 400 if thorough else 45, 60, seed_off=31)
+    fails = fails + [None] * af
+    bad = bad + [None] * ab
     finish_proof(chk, proof_ok, fails, bad)
 
 
@@ -773,7 +779,12 @@ def check_C05(chk):
         chk.sample(c)
     chk.assumptions += ["ftruncate(n) gives an object whose fstat size is exactly n and whose first n bytes are what was written through any mapping (kernel / tmpfs semantics)",
                         "memfd_create is issued as a raw system call and is invisible to the shim (that build is observed through /proc/self/fd, /proc/self/maps and mmap lengths)"]
-    finish_proof(chk, proof_ok, fails, [])
+    # regions as first-class values inside whole-API programs (cloned, embedded next to endpoints, travelling through sets and servers,
+    # carried by messages that die or cannot be decoded, read at every stage), against the Api model on the three builds
+    from . import props_prog as PP
+    af, ab = PP.api_stage(chk, "C05", bins, ["default", "memfd", "inprocess"], 400 if thorough else 45, 60, seed_off=41)
+    fails = fails + [None] * af
+    finish_proof(chk, proof_ok, fails, [None] * ab)
 
 
 # ------------------------------------------------------------------ C08 (server driver)
